@@ -390,7 +390,8 @@ def rule_subsort_table(ctx):
             v = ev.function(b, [("ctor", "Variable", (("name", ("param", "$n1")), ("sort", ("ctor", "Sort::" + s1, ())))),
                                 ("ctor", "Variable", (("name", ("param", "$n2")), ("sort", ("ctor", "Sort::" + s2, ()))))])
             want = (s1 == s2) or s2 == "General"
-            ctx.add("RW-7", "subsort:%s<=%s" % (s1, s2), v == ("lit", want), ctx.site(b), "subsort(%s, %s) = %s (definition: %s)" % (s1, s2, v, want))
+            dv = sym.decide_bool(v)
+            ctx.add("RW-7", "subsort:%s<=%s" % (s1, s2), (v == ("lit", want)) or dv is want, ctx.site(b), "subsort(%s, %s) = %s (definition: %s)" % (s1, s2, v, want))
 
 
 def rule_use_sites(ctx):
